@@ -7,7 +7,7 @@ CHECKS = {
     'C01': {
         'text': 'Seeded search over sender interleavings, flush timing, capacity announcements and slow writes; every downlink byte is decoded by an '
                 'independent reference codec (framing, escapes, bit-wise CRC8, whole messages), and after quiescence the multiset of wire messages must '
-                'equal the reference encoding of the accepted calls; multi-message packets are bounded by the largest capacity that can have been in force. '
+                'equal the reference encoding of the accepted calls; multi-message packets are bounded by the largest capacity that can have been in force; bidib_flush is judged as a barrier (when it returns, everything the same task submitted before is on the wire); a system reset races senders of unanswered messages. '
                 'Exploration is the right level: the property quantifies over schedules and histories, which are sampled, not enumerated.',
         'ref': 'DESIGN.md section 3 C01', 'note': NOTE_COMMON,
         'technique': 'deterministic simulation: seeded scheduler + reference decoder oracle over the write callback',
@@ -15,7 +15,7 @@ CHECKS = {
     'C02': {
         'text': 'Seeded search over corrupted uplink byte streams (bit flips, dropped/inserted bytes, truncation, stray and duplicate delimiters, noise) and every '
                 'chunking across read polls, plus loop-back of the library\'s own downlink; the bytes actually delivered are decoded by the independent reference '
-                'codec into GOOD / BAD-CRC / UNSPECIFIED frames and the messages read through bidib_read_message must equal the GOOD frames\' messages in order, exactly once. Loop-back pings carry engineered data so that CRC bytes need escaping; runs of 2-3 sessions end streams inside a packet and judge every session on its own stream; normal-mode runs deliver error-class messages and bit-flipped copies while an application task drains the error queue under the GLib-container lockset monitor.',
+                'codec into GOOD / BAD-CRC / UNSPECIFIED frames and the messages read through bidib_read_message must equal the GOOD frames\' messages in order, exactly once. Loop-back pings carry engineered data so that CRC bytes need escaping; runs of 2-3 sessions end streams inside a packet and judge every session on its own stream; normal-mode runs deliver error-class messages and bit-flipped copies while an application task drains the error queue under the GLib-container lockset monitor; unread bursts of 129-190 packets (the newest 128 must come out in stream order).',
         'ref': 'DESIGN.md section 3 C02', 'note': NOTE_COMMON,
         'technique': 'deterministic simulation: transport-fault injection on the read callback + reference decoder oracle',
     },
@@ -30,7 +30,7 @@ CHECKS = {
     'C04': {
         'text': 'Seeded search over node trees, nested stall/unstall sequences and concurrent senders; no message whose call was invoked after STALL=1 was known processed '
                 'may reach the wire before the matching STALL=0 starts to be delivered, unaffected nodes are served at once, and after all stalls are cleared everything is '
-                'transmitted exactly once in per-node order. Stalls last from milliseconds to many seconds (longer than the 2 s answer expiry).',
+                'transmitted exactly once in per-node order. Stalls last from milliseconds to many seconds (longer than the 2 s answer expiry); focused stalls hold more requests than one response budget or 130-170 messages for one node, with a spontaneous report right behind the MSG_STALL=0 and slow answers; the budget model stamps stall-held requests at the end of the stall.',
         'ref': 'DESIGN.md section 3 C04', 'note': NOTE_COMMON,
         'technique': 'deterministic simulation: stall windows from SimBus events + wire oracle',
     },
@@ -43,21 +43,21 @@ CHECKS = {
     'C06': {
         'text': 'Seeded search over uplink traffic of all 256 type codes (error / non-error variants) in both modes, queue fill levels around 128 and 0-4 reader tasks racing the '
                 'receiver. A reference dispatch table written from the README gives the expected pushes per queue; the simulator observes the order of critical sections on each '
-                'queue mutex, which is the linearisation order in which a sequential bounded-FIFO model is replayed: every pop must return exactly the model\'s element. Bare MSG_SYS_ERROR without parameters, Secure-ACK boards and position reports are part of the traffic; the GLib-container lockset monitor is armed.',
+                'queue mutex, which is the linearisation order in which a sequential bounded-FIFO model is replayed: every pop must return exactly the model\'s element. Bare MSG_SYS_ERROR without parameters, Secure-ACK boards and position reports are part of the traffic; the GLib-container lockset monitor is armed; after bidib_stop the library heap must be back at the level of a traffic-free warm-up session (messages still queued are released).',
         'ref': 'DESIGN.md section 3 C06', 'note': NOTE_COMMON,
         'technique': 'deterministic simulation: linearisation order from the lock model + sequential bounded-FIFO reference',
     },
     'C07': {
         'text': 'Seeded worlds and sequences of every state-bearing uplink message kind with arbitrary field values (incl. unknown targets, corrupted and duplicated copies, '
                 'chunked delivery) interleaved at quiescent points with the user\'s commands; an executable reference model of the track state, fed with every processed '
-                'uplink message and every optimistic command in the simulator\'s global event order, must equal bidib_get_state at every quiescent point. Application-issued system resets and node lost / new notices are folded by the model as well (reset: every dynamic field back to its configured initial value).',
+                'uplink message and every optimistic command in the simulator\'s global event order, must equal bidib_get_state at every quiescent point. Application-issued system resets and node lost / new notices are folded by the model as well (reset: every dynamic field back to its configured initial value); a lost MSG_NODE_LOST followed by a re-login elsewhere, feedback from the boards\' current addresses.',
         'ref': 'DESIGN.md section 3 C07', 'note': NOTE_COMMON + '; sequentialised mode only (one event between quiescent points, internal threads still scheduled at random); the concurrent linearisation mode of the design is not built',
         'technique': 'deterministic simulation: SimBus events with transport faults + reference state model compared at quiescence',
     },
     'C08': {
         'text': 'Seeded occupancy / address report histories over several boards and trains with 1-3 concurrent reader tasks; after every message the presence getters must '
                 'equal the reference model (on_track <=> listed, position = exactly the listing segments, orientation one of the reported), and a bidib_get_state snapshot of '
-                'a concurrent reader must be internally consistent whenever the simulator saw no segment-mutating critical section during the call; presence-version oracle: the result of a concurrent position / on-track reader must equal the model\'s presence as of some uplink frame whose delivery-to-processed interval overlaps the call. Address storms (many reports for one segment in consecutive polls) and resets are part of the histories.',
+                'a concurrent reader must be internally consistent whenever the simulator saw no segment-mutating critical section during the call; presence-version oracle: the result of a concurrent position / on-track reader must equal the model\'s presence as of some uplink frame whose delivery-to-processed interval overlaps the call. Address storms (one report per 5 ms grid instant, readers working in batches at every instant) and resets are part of the histories; concurrent bidib_get_segment_state results are judged by the same version oracle.',
         'ref': 'DESIGN.md section 3 C08', 'note': NOTE_COMMON,
         'technique': 'deterministic simulation: reference model + lock-section trace to judge concurrent snapshots',
     },
@@ -68,7 +68,7 @@ CHECKS = {
                 'function-bit history) gives the exact expected downlink messages per accepted call; a rejected call must add nothing to the wire and leave bidib_get_state '
                 'unchanged; optimistic state is compared with the reference after each call. Aspect ids are generated as prefix chains in one configuration of three and unknown '
                 'ids as near misses of configured ones. Phases of 2-4 tasks issue train commands concurrently: the downlink must then be explained by ONE serial order of the '
-                'commands against the same reference (search over assignments respecting program order), and the final state must equal the model; when the command station reports manual drive commands for the same train meanwhile, one total order of commands and reports that respects real-time precedence must explain both the downlink and the final state (lost updates between a command and the receiver). A lost MSG_NODE_LOST followed by an immediate re-login elsewhere is part of the topology histories.',
+                'commands against the same reference (search over assignments respecting program order), and the final state must equal the model; when the command station reports manual drive commands for the same train meanwhile, one total order of commands and reports that respects real-time precedence must explain both the downlink and the final state (lost updates between a command and the receiver). A lost MSG_NODE_LOST followed by an immediate re-login elsewhere and interfaces leaving with the boards beneath them are part of the topology histories.',
         'ref': 'DESIGN.md section 3 C09', 'note': NOTE_COMMON + '; the values are generated per run, the history dependence (function bits, direction at speed 0, address changes after re-login) is what the simulation adds',
         'technique': 'deterministic simulation: command histories against SimBus with topology events + config->message reference model on the wire',
     },
@@ -76,14 +76,14 @@ CHECKS = {
         'text': 'Seeded worlds and state histories; every getter is called with known ids, unknown ids and NULL at random points of the history, its result is scanned for bytes '
                 'still holding the simulator\'s fill patterns (stack 0xAA auto-init pattern, heap 0xA5 fill: an unset field is visible without Memcheck), canonicalised and retained '
                 'while the state keeps changing, across bidib_stop and a following session, then compared again and passed to its free function exactly once under ASan. At '
-                'quiescent points the whole-track snapshot is compared field by field with all single-entity getters. Hot-entity runs (three in ten): two uplink messages that each determine one entity\'s state are calibrated at quiescent moments and then alternate every 5-15 ms while 1-3 tasks call that entity\'s getter and bidib_get_state; every concurrent result must equal one of the two calibrated results (a copy of ONE state, not a mix, not freed memory).',
+                'quiescent points the whole-track snapshot is compared field by field with all single-entity getters. Hot-entity runs (three in ten): two uplink messages that each determine one entity\'s state are calibrated at quiescent moments and then alternate every 5-15 ms while 1-3 tasks call that entity\'s getter and bidib_get_state; every concurrent result must equal one of the two calibrated results (a copy of ONE state, not a mix, not freed memory); one kind is the list of connected boards while a board leaves and logs in again. Index getters are compared with positions in the snapshot.',
         'ref': 'DESIGN.md section 3 C17', 'note': NOTE_COMMON + '; definedness by fill-pattern scan of the returned struct instead of Valgrind Memcheck (a field that happens to be set to the pattern byte value would be misjudged; the scan therefore requires whole-field matches of the 0xAA/0xA5 patterns)',
         'technique': 'deterministic simulation: retained query results across state changes / stop / restart + fill-pattern definedness scan + snapshot-vs-getter differential under ASan',
     },
     'C20': {
         'text': 'Seeded configurations (features and initial values on any subset of boards, accessories and trains) x node trees with any subset of the configured boards present, '
                 'boards answering feature requests with the requested or another value, delayed and chunked answers, a slow node whose feature confirmations are 2-4.5 s late while more '
-                'FEATURE_SETs than one response budget are pending, single confirmations that are late and overtaken by the ones behind them, a late GO confirmation, a board lost during the feature phase, spontaneous occupancy traffic during the dialogue, and a system '
+                'FEATURE_SETs than one response budget are pending, single confirmations that are late and overtaken by the ones behind them, a late GO confirmation, a board lost during the feature phase or after its node-table row was read, an interface with configured boards logging in during the enumeration, spontaneous occupancy traffic during the dialogue, and a system '
                 'reset later in the session (answers are never lost here: the start-up dialogue has no timeout and would rightly wait). The complete decoded downlink transcript of every start-up / reset dialogue is checked against a transcript model: features only to their '
                 'connected board and before SYS_ENABLE, every connected track output switched on, then every initial aspect exactly once and every initial train function once per '
                 'connected track output with the encoding of the high-level command, nothing for absent boards.',
@@ -106,14 +106,14 @@ CHECKS = {
         'text': 'Seeded search over every public call x argument classes (valid, unknown id, NULL, disconnected, undefined aspect, out of range), every uplink type incl. node '
                 'new/lost during the start-up dialogue, rejected configurations and system resets. The simulator owns lock state: the held set is compared at entry and return of '
                 'every call, deadlock / self-deadlock / a lock that is never granted are decided by the scheduler (no wall-clock timeout), and the lock-order graph merged over '
-                'all runs of a check must be acyclic (cycles of pure read re-acquisition excepted).',
+                'all runs of a check must be acyclic (cycles of pure read re-acquisition excepted). One run in 150 is a long history of more than 10 000 paced commands (the action-id counter wraps).',
         'ref': 'DESIGN.md section 3 C11', 'note': NOTE_COMMON,
         'technique': 'deterministic simulation: lock model (held sets, wait-for graph) + merged lock-order graph',
     },
     'C12': {
         'text': 'Hostile uplink streams (random, mutated, grammar-generated CRC-valid packets with adversarial length/address/type/field values, oversized frames) in debug and '
                 'normal mode against generated configurations, incl. single messages close to the 255-byte maximum, under ASan/UBSan with deterministic fill patterns; application tasks (getters, commands, queue readers) running during the stream; then a liveness '
-                'probe: a known-good packet must still be processed. A receiver that spins without reaching a scheduling point is reported by a CPU-time monitor outside the simulation.',
+                'probe: a known-good packet must still be processed; the GLib-container lockset monitor is armed; a capacity dance (large announcement, unflushed batch, smaller announcement). A receiver that spins without reaching a scheduling point is reported by a CPU-time monitor outside the simulation.',
         'ref': 'DESIGN.md section 3 C12', 'note': NOTE_COMMON,
         'technique': 'deterministic simulation: line-noise / adversarial-frame injection + sanitizers + bounded-liveness probe',
     },
@@ -121,7 +121,7 @@ CHECKS = {
         'text': 'Seeded structure-aware mutations of generated valid configuration triples, raw noise, and file faults (missing file, truncation at byte k, EIO after k bytes) on the '
                 'in-memory file layer; the start runs the real threads against the simulated interface on simulated time and the whole stop path on error. Oracles: returns 0/1 '
                 '(deadlock, self-deadlock and unbounded wait are decided by the scheduler, not by a timeout), sanitizers, locks released, threads joined, configuration FILE closed, '
-                'library-attributed live heap back to the warm-up level, and a following start with the valid configuration works; boards log in and report while a start is going on, single feature confirmations arrive late and overtaken; a parser loop that never reaches a scheduling point '
+                'library-attributed live heap back to the warm-up level, and a following start with the valid configuration works; boards log in and report while a start is going on, single feature confirmations arrive late and overtaken, traffic falls into the node-table read-out, one mutated start in six goes through bidib_start_serial; a parser loop that never reaches a scheduling point '
                 'is reported by a CPU-time monitor outside the simulation (12 s of CPU time without a scheduling step). The input-generation part is ordinary generation; '
                 'the simulation contributes threads, time, the file faults and the lock/heap/thread bookkeeping.',
         'ref': 'DESIGN.md section 3 C13', 'note': NOTE_COMMON,
@@ -130,7 +130,7 @@ CHECKS = {
     'C15': {
         'text': 'Seeded node trees (nested interfaces, unknown ids, absent boards), node-table changes in the middle of the start-up enumeration and afterwards sequences of '
                 'node-lost / node-new notices incl. interfaces with children, re-login at another address and repeated notices; an unconfigured hub with configured boards beneath it '
-                'logging in while another sub-interface is enumerated (triggered by the protocol event, not by a time); lost and duplicated notices, node-table rows that are seconds late; a connectivity model driven by the same notices is compared with the '
+                'logging in while another sub-interface is enumerated (triggered by the protocol event, not by a time); lost and duplicated notices (also the login notice of an interface, whose boards then announce themselves beneath a host-side lost interface), node-table rows that are seconds late; a connectivity model driven by the same notices is compared with the '
                 'connectivity getters after every notice, the acknowledgement must be on the wire when the notice is known processed, and commands go to the model\'s current '
                 'address of connected boards only.',
         'ref': 'DESIGN.md section 3 C15', 'note': NOTE_COMMON,
@@ -138,7 +138,7 @@ CHECKS = {
     },
     'C16': {
         'text': 'Seeded sequences of 2-5 sessions in one process (debug / pointer / simulated serial device / silent interface / unopenable device / missing configuration file, '
-                'auto-flush on or off, stop-while-stopped, start-while-running incl. with a configuration that would be rejected, late probe answers and stale bytes on the line, node-table changes during the enumeration, application-issued resets) with activity in between. Oracles: start result, shutdown transcript, thread create/join '
+                'auto-flush on or off, stop-while-stopped, start-while-running incl. with a configuration that would be rejected, late probe answers and stale bytes on the line, node-table changes during the enumeration, application-issued resets, command stations that never confirm a state change, more trains than one response budget at shutdown, rejected configurations of several kinds with a heap-level check) with activity in between. Oracles: start result, shutdown transcript, thread create/join '
                 'bookkeeping with never-reused synthetic handles (a stale join is detected, not executed), exact library-attributed live-heap accounting after every stop, and '
                 'equality of the last session with a reference copy of itself run on process-start static state (transcripts, packet boundaries and getter results exactly in runs '
                 'without scheduling faults; multiset of messages per destination in runs with descheduling / starvation).',
@@ -149,7 +149,7 @@ CHECKS = {
         'text': 'Seeded worlds with Secure-ACK enabled / disabled / absent per board, occupancy reports of all four kinds from several boards interleaved with sender tasks, '
                 'optionally while the reporting board is stalled, with MULTIPLE windows up to the last detector and a task that consumes (and frees) the message queue meanwhile; '
                 'every report of a SecAck board must produce exactly one mirror with the same payload, in order, already on '
-                'the wire when the report is known processed (no flush by the application, auto-flush off) unless a stall or an exhausted response budget (answers dropped by the bus) impedes it - then exactly once after the impediment ends; other boards never receive mirrors.',
+                'the wire when the report is known processed (no flush by the application, auto-flush off) unless a stall or an exhausted response budget (answers dropped by the bus) impedes it - then exactly once after the impediment ends; other boards never receive mirrors, also after two boards with different Secure-ACK settings swapped addresses.',
         'ref': 'DESIGN.md section 3 C19', 'note': NOTE_COMMON,
         'technique': 'deterministic simulation: SimBus report events + wire oracle at the moment of known processing',
     },
